@@ -552,9 +552,82 @@ func (r *splitMix) next() uint64 {
 	return z ^ (z >> 31)
 }
 
+// openOnceCase: Open is invoked at most once on a File, whichever fids lead to
+// it. Besides the fid a File was walked to, the fid created by Txattrwalk
+// shares its origin's File.
+type openOnceCase struct {
+	Native bool     `json:"native_walkgetattr"`
+	Target string   `json:"target"` // file | dir
+	Steps  []string `json:"steps"`  // open:<flags> | xwalk:<name> | xopen:<flags> | xclone | reopen:<flags> | clunk-x
+}
+
+func runOpenOnceCase(c openOnceCase) *fail {
+	fs := memfs.New(memfs.Options{NativeWalkGetAttr: c.Native})
+	memtree.Populate(fs.Tree)
+	s := peers.Start(p9.NewServer(fs))
+	defer s.Close(10 * time.Second)
+	if _, err := s.Version(64<<10, "9P2000.L.Google.7"); err != nil {
+		return failf("harness-version", "HARNESS-ERROR %v", err)
+	}
+	setup := []*refcodec.Msg{tAttach(0, nofid, ""), tWalk(0, 1, "d", "f")}
+	if c.Target == "dir" {
+		setup[1] = tWalk(0, 1, "d")
+	}
+	for _, m := range setup {
+		m.Tag = s.Tag()
+		if r, err := s.Call(m); err != nil || r.Type == refcodec.Rlerror {
+			return failf("harness-setup", "HARNESS-ERROR %s => %v %v", m, r, err)
+		}
+	}
+	var hist []string
+	for _, st := range c.Steps {
+		var m *refcodec.Msg
+		var arg string
+		kind := st
+		if i := strings.IndexByte(st, ':'); i >= 0 {
+			kind, arg = st[:i], st[i+1:]
+		}
+		var n uint64
+		fmt.Sscanf(arg, "%d", &n)
+		switch kind {
+		case "open", "reopen":
+			m = tOpen(1, n)
+		case "xwalk":
+			m = tXattrwalk(1, 2, arg)
+		case "xopen":
+			m = tOpen(2, n)
+		case "xclone":
+			m = tWalk(2, 3)
+		case "xcopen":
+			m = tOpen(3, n)
+		default:
+			m = tClunk(2)
+		}
+		m.Tag = s.Tag()
+		r, err := s.Call(m)
+		if err != nil {
+			return failf("no-reply:open-once", "%s: %v", m, err)
+		}
+		hist = append(hist, fmt.Sprintf("%s => %s", m, r))
+	}
+	opens := map[int]int{}
+	for _, cl := range fs.LogSince(0) {
+		if cl.Op == "Open" {
+			opens[cl.Handle]++
+		}
+	}
+	for h, n := range opens {
+		if n > 1 {
+			return failf("second-open:sequence", "Open was invoked %d times on File h%d: %s", n, h, strings.Join(hist, "; "))
+		}
+	}
+	return nil
+}
+
 func init() {
 	replayRegistrars = append(replayRegistrars, func() {
 		registerReplay("C07/pairs", func(c pairCase) *fail { return runPairCase(c, nil) })
+		registerReplay("C07/open-once", runOpenOnceCase)
 		registerReplay("C07/workload", func(c workloadCase) *fail { f, _ := runWorkload(c, true); return f })
 	})
 }
@@ -609,6 +682,39 @@ func TestC07(t *testing.T) {
 	}
 	h.Exhaustive(fmt.Sprintf("every ordered pair of %d operations x %d relations (x 2 backends in the thorough tier)", len(ops), len(ccRelations)))
 
+	// Open at most once per File: every short sequence of opens through the fid
+	// and through attribute fids derived from it
+	if env.Shard == 0 {
+		steps := []string{"open:0", "open:2", "xwalk:user.a", "xwalk:", "xopen:0", "xopen:1", "xclone", "xcopen:0", "reopen:0", "clunk-x"}
+		var rec func(prefix []string, depth int) bool
+		rec = func(prefix []string, depth int) bool {
+			if len(prefix) >= 2 {
+				for _, tg := range []string{"file", "dir"} {
+					c := openOnceCase{Native: len(prefix)%2 == 0, Target: tg, Steps: append([]string{}, prefix...)}
+					f := runOpenOnceCase(c)
+					h.Case(evid.HashJSON(c), true, "open-once")
+					if f != nil && strings.HasPrefix(f.Sig, "harness-") {
+						t.Errorf("HARNESS-ERROR %s", f.Msg)
+						continue
+					}
+					if h.report("open-once", f, c) {
+						return false
+					}
+				}
+			}
+			if depth == 0 {
+				return true
+			}
+			for _, st := range steps {
+				if !rec(append(prefix, st), depth-1) {
+					return false
+				}
+			}
+			return true
+		}
+		rec(nil, env.Pick(3, 4))
+		h.Exhaustive(fmt.Sprintf("every sequence of 2..%d steps over %d open / attribute-fid steps x {file, directory}: Open at most once per File", env.Pick(3, 4), len(steps)))
+	}
 	rapidCases(h, "workload", env.PerShard(env.Pick(48, 24000)), func(rt *rapid.T) workloadCase {
 		return workloadCase{Seed: rapid.Uint64Range(1, 1<<40).Draw(rt, "seed"), Conns: rapid.IntRange(1, 4).Draw(rt, "conns"),
 			Workers: rapid.IntRange(4, 32).Draw(rt, "workers"), Ops: rapid.IntRange(10, 60).Draw(rt, "ops"),
